@@ -26,13 +26,13 @@ type genuine struct {
 }
 
 type c07 struct {
-	r      *ev.Run
-	w      *world.World
-	f      *appencryption.SessionFactory
-	sess   map[string]*appencryption.Session
-	corpus []genuine
+	r       *ev.Run
+	w       *world.World
+	f       *appencryption.SessionFactory
+	sess    map[string]*appencryption.Session
+	corpus  []genuine
 	sampled map[string]bool
-	byData map[string][]byte // string(Data) -> payload originally encrypted into it
+	byData  map[string][]byte // string(Data) -> payload originally encrypted into it
 }
 
 // check decrypts a (possibly mutated) record through the session of part and applies the oracle:
@@ -256,8 +256,12 @@ func TestC07(t *testing.T) {
 		// 8. Session.Load with hostile loaders
 		for name, ld := range map[string]loaderFunc{
 			"nil-nil": func(context.Context, interface{}) (*appencryption.DataRowRecord, error) { return nil, nil },
-			"nil-err": func(context.Context, interface{}) (*appencryption.DataRowRecord, error) { return nil, errors.New("not found") },
-			"zero":    func(context.Context, interface{}) (*appencryption.DataRowRecord, error) { return &appencryption.DataRowRecord{}, nil },
+			"nil-err": func(context.Context, interface{}) (*appencryption.DataRowRecord, error) {
+				return nil, errors.New("not found")
+			},
+			"zero": func(context.Context, interface{}) (*appencryption.DataRowRecord, error) {
+				return &appencryption.DataRowRecord{}, nil
+			},
 		} {
 			func() {
 				defer func() {
@@ -405,7 +409,6 @@ func (c *c07) corruptRows(rng *rand.Rand) {
 		set(orig)
 	}
 }
-
 
 // suffixedPass re-runs the parent-key-meta and structural mutants on a factory whose metastore advertises a
 // region suffix, where partition validation follows a different code path.
